@@ -1,6 +1,7 @@
 import Mkdb.Proofs.Session
 import Mkdb.Proofs.SessionInv9
 import Mkdb.Proofs.DbNames1
+import Mkdb.Proofs.SessionCrash3
 /-!
 # C17 — databases are isolated and survive any USE pattern
 
@@ -535,5 +536,119 @@ example : SessAbs sessT (fun _ => sdbA0) ∧ sessT.cur = some "d" ∧ getDB sess
   have := htr tr hm
   subst this
   exact room_insert56.2 tT schema (List.mem_singleton.mpr rfl) hs
+
+/-! ### crashes: the process dies between two statements
+
+`crashRestart` (Model/Session.lean): the cache of the selected database is dropped WITHOUT a flush, then
+start-up recovery of every database.  The invariant `SessAbs` is too weak for it (it speaks of the cache of
+the selected database, not of its log: `C17_crash_loses_rows_of_a_refused_insert`); the crash invariant
+`SessCrash s w` (Proofs/SessionCrash1) adds: every database is reached from a checkpointed one (`Ckpt`, C02)
+by row statements the plain model accepts. -/
+
+/-- **C17.crash_restart_keeps_every_database**: for a session that satisfies the crash invariant for the
+plain databases `w`, `crashRestart` - the process dies between two statements, no page of the selected
+database is flushed, start-up recovery of every database - succeeds: NO recovery fails.  Afterwards the
+session has the same names, nothing selected, satisfies the crash invariant (hence `SessAbs`) again and
+abstracts to THE SAME plain databases `w`: every database holds the same tables with the same rows
+(`C17_contents_are_what_a_reader_sees`), the acknowledged statements of the selected database included.
+Hypothesis `SessCrash` (instead of `SessAbs`, which `C17_restart_preserves_every_database` needs): it
+excludes sessions whose selected database holds rows that no log record holds - those a statement refused
+at a later row left behind; there the statement is false (`C17_crash_loses_rows_of_a_refused_insert`). -/
+theorem C17_crash_restart_keeps_every_database (s : Sess) (w : String → Spec.SDB) (h : SessCrash s w) :
+    ∃ s', crashRestart s = some s' ∧ SessCrash s' w ∧ SessAbs s' w ∧ names s' = names s ∧ s'.cur = none := by
+  obtain ⟨s', e, h1, h2, h3, _⟩ := crashRestart_sessCrash h
+  exact ⟨s', e, h1, h1.abs, h2, h3⟩
+
+/-- non-vacuity: the session after CREATE DATABASE d; USE d; CREATE TABLE t (a INT), with `d` selected -/
+example : SessCrash sessT (fun _ => sdbA0) ∧ sessT.cur = some "d" := ⟨sessCrash_sessT, rfl⟩
+
+/-- **C17.crash_invariant**: the crash invariant implies the session invariant, holds in the empty
+session, and is kept by USE, by CREATE DATABASE (accepted or refused), by every statement that leaves the
+session as it is (SELECT, SHOW DATABASES, anything while no database is selected), and by `restart`.
+(Accepted INSERT / UPDATE / DELETE: `C17_accepted_statement_keeps_the_crash_invariant`.) -/
+theorem C17_crash_invariant (s : Sess) (w : String → Spec.SDB) (h : SessCrash s w) :
+    SessInv s ∧ SessCrash {} w ∧ (∀ name, SessCrash (exec s (.use name)).1 w) ∧
+    (∀ name, ∃ w', SessCrash (exec s (.createDatabase name)).1 w') ∧
+    (∀ st, (exec s st).1 = s → SessCrash (exec s st).1 w) ∧
+    (∃ s', restart s = some s' ∧ SessCrash s' w ∧ names s' = names s ∧ s'.cur = none) := by
+  refine ⟨h.inv, sessCrash_empty w, use_sessCrash h, fun name => ?_, fun st hs => same_sessCrash h st hs, ?_⟩
+  · obtain ⟨w', h1, _⟩ := createDatabase_sessCrash h name
+    exact ⟨w', h1⟩
+  · obtain ⟨s', e, h1, h2, h3, _⟩ := restart_sessCrash h
+    exact ⟨s', e, h1, h2, h3⟩
+
+/-- **C17.accepted_statement_keeps_the_crash_invariant**: `C17_accepted_statement` for the crash invariant:
+an INSERT / UPDATE / DELETE that the plain model accepts (with room) succeeds, the selected database then
+holds the plain model's result - in its cache AND, after a crash, from its log.  And an accepted CREATE TABLE
+on a selected database that is checkpointed (`CkptNS`: right after USE or after another CREATE TABLE).
+NOT covered: CREATE TABLE after row statements with no flush between them; refused statements. -/
+theorem C17_accepted_statement_keeps_the_crash_invariant (s : Sess) (w : String → Spec.SDB) (h : SessCrash s w)
+    (n : String) (hc : s.cur = some n) (db : DB) (hg : getDB s n = some db) (st : Stmt)
+    (hk : ((∃ t c r, st = .insert t c r) ∨ (∃ t a c, st = .update t a c) ∨ (∃ t c, st = .delete t c)) ∨
+      (CkptNS db (w n) ∧ ∃ t c, st = .createTable t c))
+    (hroom : ∀ pt sch tbls, DbInv db (w n) pt sch tbls → StmtRoom db pt sch tbls st)
+    (sdb' : Spec.SDB) (hspec : Spec.specStmt (w n) st = some sdb') :
+    (exec s st).2 = Out.ok ∧ SessCrash (exec s st).1 (setW w n sdb') := by
+  rcases hk with hk | ⟨hck, t, c, rfl⟩
+  · exact accepted_sessCrash h n hc db hg st hk hroom sdb' hspec
+  · obtain ⟨h1, h2, _⟩ := createTable_sessCrash h n hc db hg hck t c hroom sdb' hspec
+    exact ⟨h1, h2⟩
+
+/-- non-vacuity: `INSERT INTO t VALUES (5), (6)` on `sessT` -/
+example : SessCrash sessT (fun _ => sdbA0) ∧ getDB sessT "d" = some tableDB ∧
+    (∀ pt sch tbls, DbInv tableDB sdbA0 pt sch tbls →
+      StmtRoom tableDB pt sch tbls (.insert tname [] [[.int 5], [.int 6]])) ∧
+    Spec.specStmt sdbA0 (.insert tname [] [[.int 5], [.int 6]]) = some sdbA1 := by
+  refine ⟨sessCrash_sessT, by simp [getDB, sessT], ?_, rfl⟩
+  intro pt sch tbls hi
+  obtain ⟨rfl, rfl, htr⟩ := dbInv_tableDB_unique hi
+  refine ⟨room_insert56.1, fun tr schema hm hs => ?_⟩
+  have := htr tr hm
+  subst this
+  exact room_insert56.2 tT schema (List.mem_singleton.mpr rfl) hs
+
+/-- **C17.histories_with_crashes_partial**: every session reached from the empty session by a history
+`CrashHist` - CREATE DATABASE (accepted or refused), USE, statements that leave the session as it is,
+accepted INSERT / UPDATE / DELETE, accepted CREATE TABLE on a checkpointed selected database, `restart`,
+`crashRestart`, in any order and number - satisfies the crash invariant for the plain databases `w` of the
+acknowledged statements: what a reader sees of every database is `w` (`C17_contents_are_what_a_reader_sees`),
+and a crash or a restart at this point succeeds (no recovery fails), keeps the names and leads to such a
+session for the same `w`.  PARTIAL: the histories exclude statements refused by the selected database (a
+refusal at a later row leaves unlogged rows: the statement is then false,
+`C17_crash_loses_rows_of_a_refused_insert`; a refusal before any change is harmless but not proved) and a
+CREATE TABLE issued after row statements with no USE / CREATE TABLE / restart between them (no storage-level
+theorem for a CREATE TABLE on a database with dirty pages). -/
+theorem C17_histories_with_crashes_partial (s : Sess) (w : String → Spec.SDB) (h : CrashHist s w) :
+    SessCrash s w ∧ SessAbs s w ∧
+    (∃ s', crashRestart s = some s' ∧ CrashHist s' w ∧ names s' = names s ∧ s'.cur = none) ∧
+    (∃ s', restart s = some s' ∧ CrashHist s' w ∧ names s' = names s ∧ s'.cur = none) :=
+  ⟨crashHist_sessCrash h, (crashHist_sessCrash h).abs, (crashHist_recovers h).1, (crashHist_recovers h).2⟩
+
+/-- non-vacuity: the empty history, crashed twice with a restart between -/
+example : ∃ s, CrashHist s (fun _ => []) :=
+  ⟨_, .crash (.restart (.crash .empty (s' := {}) rfl) (s' := {}) rfl) (s' := {}) rfl⟩
+
+/-- **C17.crash_example** (computed): CREATE DATABASE d; USE d; CREATE TABLE t (a INT); INSERT INTO t VALUES
+(5) - all accepted; crash with no page flushed since CREATE TABLE; recovery succeeds; USE d; a reader of `t`
+sees the row `(5)`. -/
+theorem C17_crash_example :
+    allOk (runAll {} crashHistory).2 = true ∧
+    ((crashRestart (runAll {} crashHistory).1).map fun s' => rowsOf (exec s' (.use [100])).1 "d")
+      = some (some [[.int 5]]) := crash_example
+
+/-- **C17.crash_loses_rows_of_a_refused_insert** (computed; why `SessAbs` is not enough for a crash).
+CREATE DATABASE d; USE d; CREATE TABLE t (a INT); INSERT INTO t VALUES (5), ('x') - refused at the second
+row, nothing logged, but the first row stays in the cache (C14): a reader sees `(5)`; `restart` (which
+flushes) keeps it; `crashRestart` loses it.  Then UPDATE t SET a = 7 WHERE a = 5 is ACCEPTED and logged, a
+reader sees `(7)`; after a crash recovery succeeds and `t` is empty: the acknowledged UPDATE is lost with
+the row it changed. -/
+theorem C17_crash_loses_rows_of_a_refused_insert :
+    rowsOf (runAll {} ghostHistory).1 "d" = some [[.int 5]] ∧
+    (restart (runAll {} ghostHistory).1).map (rowsOf · "d") = some (some [[.int 5]]) ∧
+    (crashRestart (runAll {} ghostHistory).1).map (rowsOf · "d") = some (some []) ∧
+    allOk [(exec (runAll {} ghostHistory).1 ghostUpdate).2] = true ∧
+    rowsOf (exec (runAll {} ghostHistory).1 ghostUpdate).1 "d" = some [[.int 7]] ∧
+    (crashRestart (exec (runAll {} ghostHistory).1 ghostUpdate).1).map (rowsOf · "d") = some (some []) :=
+  crash_loses_unlogged_rows
 
 end Mkdb.Session
